@@ -106,7 +106,99 @@ def cpr_cases(tier, seed):
             A2 = fmt_crs(n2, n2, rows2)
             for kind in ("scalar_dummy", "scalar_spai0", "update_dummy"):
                 out.append(dict(id="c%d" % len(out), line="cpr %s %d %d %s" % (kind, b, act, A2), kind=kind, b=b, active=act, crs=A2, grp=None))
+            # block-valued input with active_rows < n (in block units): must be the scalar operator
+            out.append(dict(id="c%d" % len(out), line="cpr scalar_dummy %d %d %s" % (b, act, A), kind="scalar_dummy", b=b, active=act, crs=A, grp="a%d" % it))
+            out.append(dict(id="c%d" % len(out), line="cpr block_dummy %d %d %s" % (b, act, A), kind="block_dummy", b=b, active=act, crs=A, grp="a%d" % it,
+                            coupled=any(c >= act for i in range(act) for c, _ in rows[i])))
+        # rows listed in arbitrary order: the template constructor sorts its copy
+        if it % 3 == 0:
+            As = fmt_crs(n, n, gen.shuffle_rows(r, rows))
+            for kind in ("scalar_dummy", "update_dummy"):
+                out.append(dict(id="c%d" % len(out), line="cpr %s %d 0 %s" % (kind, b, As), kind=kind, b=b, active=0, crs=A, grp=None))
     return out
+
+
+DYADIC = [F(0), F(1, 32), F(1, 4), F(1, 2), F(1), F(2), F(8)]
+
+def cprdrs_cases(tier, seed):
+    """cpr_drs: dynamic-row-sum weights; eps_dd, eps_ps and the weights are dyadic (exact doubles)"""
+    r = random.Random(seed * 1000 + 184)
+    N = 14 if tier == "quick" else 90
+    out = []
+    for it in range(N):
+        b = r.choice([2, 2, 3]); nb = r.choice([1, 2, 3, 4]); n = b * nb
+        rows = gen.nonsym_dd(r, n, density=r.choice([0.3, 0.6, 1.0]))
+        if it % 2 == 0:
+            # weaken the diagonal dominance of the non-pressure equations so that the eps tests bite
+            rows = [[(c, (v / r.choice([1, 2, 8, 64]) if (c == i and i % b) else v)) for c, v in rw] for i, rw in enumerate(rows)]
+        eps_dd = r.choice(DYADIC); eps_ps = r.choice(DYADIC)
+        act = 0 if (nb < 2 or r.random() < 0.6) else b * r.randint(1, nb - 1)
+        N_act = act if act else n
+        w = [] if r.random() < 0.5 else [F(r.randint(-4, 12), 4) for _ in range(N_act)]
+        A = fmt_crs(n, n, rows if it % 4 else gen.shuffle_rows(r, rows))
+        pay = "%d %d %s %s %s %s" % (b, act, fmt_q(eps_dd), fmt_q(eps_ps), fmt_vec(w), A)
+        kinds = ["scalar"] + (["block"] if act == 0 else []) + (["update"] if it % 5 == 0 else [])
+        for kind in kinds:
+            out.append(dict(id="r%d" % len(out), line="cprdrs %s %s" % (kind, pay), kind=kind, b=b, active=act, eps_dd=eps_dd, eps_ps=eps_ps, w=w, rows=rows, n=n, grp=it))
+    return out
+
+
+def fsolve(M, rhs):
+    """exact dense solve over Fractions; None if singular"""
+    n = len(rhs); M = [list(rw) for rw in M]; rhs = list(rhs)
+    for c in range(n):
+        p = next((k for k in range(c, n) if M[k][c] != 0), None)
+        if p is None: return None
+        M[c], M[p] = M[p], M[c]; rhs[c], rhs[p] = rhs[p], rhs[c]
+        for k in range(c + 1, n):
+            if M[k][c] != 0:
+                f = M[k][c] / M[c][c]
+                for j in range(c, n): M[k][j] -= f * M[c][j]
+                rhs[k] -= f * rhs[c]
+    x = [F(0)] * n
+    for i in reversed(range(n)):
+        x[i] = (rhs[i] - sum(M[i][j] * x[j] for j in range(i + 1, n))) / M[i][i]
+    return x
+
+
+def drs_spec(c):
+    """the documented dynamic-row-sum rule on the dense matrix: weights delta, pressure matrix
+    App = W K (pressure columns of the active part), operator x = f + Scatter App^-1 W (f - K f)
+    (dummy global stage).  Returns (App rows, operator rows) or None if App is singular"""
+    b, n = c["b"], c["n"]; Nact = c["active"] or n; np_ = Nact // b
+    D = gen.dense_of(n, n, c["rows"])
+    delta = []
+    for ip in range(np_):
+        dia = [D[ip * b + i][ip * b] for i in range(b)]
+        off = [sum(abs(D[ip * b + i][jp * b]) for jp in range(np_) if jp != ip) for i in range(b)]
+        top = [sum(abs(D[ip * b][jp * b + k]) for jp in range(np_)) for k in range(b)]
+        for i in range(b):
+            d = c["w"][ip * b + i] if c["w"] else F(1)
+            if i > 0 and (dia[i] < c["eps_dd"] * off[i] or top[i] < c["eps_ps"] * abs(dia[0])): d = F(0)
+            delta.append(d)
+    App = [[sum(delta[ip * b + i] * D[ip * b + i][jp * b] for i in range(b)) for jp in range(np_)] for ip in range(np_)]
+    op = []
+    for e in range(n):
+        f = [F(1) if k == e else F(0) for k in range(n)]
+        rs = [f[i] - D[i][e] for i in range(n)]
+        rp = [sum(delta[ip * b + i] * rs[ip * b + i] for i in range(b)) for ip in range(np_)]
+        xp = fsolve(App, rp)
+        if xp is None: return App, None
+        x = list(f)
+        for ip in range(np_): x[ip * b] += xp[ip]
+        op.append(x)
+    return App, op
+
+
+def dense_of_payload(s):
+    """'{n m | c:v ...}' -> dense Fractions (duplicates add up)"""
+    parts = s.strip()[1:-1].split("|")
+    n, m = [int(x) for x in parts[0].split()]
+    D = [[F(0)] * m for _ in range(n)]
+    for i, p in enumerate(parts[1:]):
+        for e in p.split():
+            cc, v = e.split(":"); D[i][int(cc)] += F(v)
+    return D
 
 
 def deflate_cases(tier, seed):
@@ -161,6 +253,10 @@ def classify(fail):
         return dict(site="schur_pressure_correction::init adjust_p=1", type=m.get("typ"), kpp_row_without_diagonal=m.get("nodiag"))
     if fail.get("group") == "pattern-hang":
         return dict(site="schur_pressure_correction::params pmask_pattern", start_digits=m.get("start_digits"), stride_parsed=0)
+    if fail.get("group") == "cpr-block-active":
+        return dict(site="cpr::init block value type", active_rows_lt_n=True, active_row_coupled_to_inactive_column=m.get("coupled"), what=m.get("what"))
+    if fail.get("group") == "cprdrs-update":
+        return dict(site="cpr_drs::first_scalar_pass get_app=false", crash=m.get("crash"))
     return {}
 
 
@@ -181,6 +277,7 @@ def run(ctx, cases_override=None):
     fails += run_schur(ctx, schur_cases(tier, seed))
     fails += run_patterns(ctx, PATTERNS_OK + PATTERNS_2DIGIT + PATTERNS_BAD)
     fails += run_cpr(ctx, cpr_cases(tier, seed))
+    fails += run_cprdrs(ctx, cprdrs_cases(tier, seed))
     fails += run_deflate(ctx, deflate_cases(tier, seed))
     return fails
 
@@ -283,7 +380,11 @@ def run_cpr(ctx, cs):
                                   theorem="C18: a partial update of CPR with an unchanged matrix leaves its action unchanged"))
             continue
         if not o.startswith("{"):
-            fails.append(dict(kind="counterexample", case=line, impl=o[:300], model=None, op="cpr", size=len(line), theorem="C18: cpr construction/apply failed")); continue
+            x = dict(kind="counterexample", case=line, impl=o[:300], model=None, op="cpr", size=len(line), theorem="C18: cpr construction/apply failed")
+            if c["kind"] == "block_dummy" and c.get("active"):
+                x["group"] = "cpr-block-active"; x["meta"] = dict(coupled=c.get("coupled"), what=" ".join(o.split()[:3]))
+                x["theorem"] = "C18: CPR on scalar input with block_size b and on b x b block input give the same operator and pressure matrix (active_rows < n)"
+            fails.append(x); continue
         dense, app = split_top(o)
         if c.get("grp") is not None: grp.setdefault(c["grp"], {})[c["kind"]] = (dense, app, line)
         ol.append("%s o.cpr %s %d %d %s %s %s" % (cid, c["kind"], c["b"], c.get("active", 0), c["crs"], mtok(dense), mtok(app)))
@@ -294,6 +395,50 @@ def run_cpr(ctx, cs):
             if d["scalar_dummy"][:2] != d["block_dummy"][:2]:
                 fails.append(dict(kind="counterexample", case=d["block_dummy"][2], impl=str(d["block_dummy"][:2])[:400], model=str(d["scalar_dummy"][:2])[:400], op="cpr", size=len(d["block_dummy"][2]),
                                   theorem="C18: CPR on scalar input with block_size b and on b x b block input give the same operator and pressure matrix"))
+    return fails
+
+
+def run_cprdrs(ctx, cs):
+    lines = ["%s %s" % (c["id"], c["line"]) for c in cs]
+    upd = [l for l, c in zip(lines, cs) if c["kind"] == "update"]
+    f, impl, _ = diff_run(ctx, "composite", [l for l in lines if l not in upd],
+                          theorem="correspondence drv_composite (preconditioner::cpr_drs with a recording exact pressure stage) vs CprDrs.v (drs_make / drsb_make) + Composite.v cpr_apply")
+    fails = list(f)
+    # partial_update: each case in its own process (the unchanged code dereferences a null pointer)
+    for l in upd:
+        res = ctx["run_driver"](ctx["cpp"]["composite"], [l], shards=1)
+        impl.update(res); account(ctx, [l], res)
+    grp = {}
+    for c, line in zip(cs, lines):
+        o = impl.get(c["id"], "")
+        ctx["stats"]["oracle_checks"] += 1
+        if c["kind"] == "update":
+            if not o.startswith("same "):
+                x = dict(kind="counterexample", case=line, impl=o[:300], model="same ...", op="cprdrs", size=len(line),
+                         theorem="C18: a partial update of CPR (cpr_drs) with an unchanged matrix leaves its action unchanged")
+                if o.startswith("CRASH"): x["group"] = "cprdrs-update"; x["meta"] = dict(crash=o.split()[1] if len(o.split()) > 1 else "")
+                fails.append(x)
+            continue
+        spec = drs_spec(c)
+        if o.startswith("EXC runtime_error singular_pressure_matrix") and spec[1] is None: continue
+        if not o.startswith("{"):
+            fails.append(dict(kind="counterexample", case=line, impl=o[:300], model=None, op="cprdrs", size=len(line), theorem="C18: cpr_drs construction/apply failed")); continue
+        dense, app = split_top(o)
+        grp.setdefault(c["grp"], {})[c["kind"]] = (dense, app, line)
+        exp_app, exp_op = spec
+        got_app = dense_of_payload(app); got_op = dense_of_payload(dense)
+        if got_app != exp_app or exp_op is None or got_op != exp_op:
+            ctx["stats"]["oracle_fail"] += 1
+            fails.append(dict(kind="counterexample", case=line, impl=o[:400], model=None, op="cprdrs", size=len(line),
+                              oracle=dict(statement="cpr_drs: weights by the dynamic row sum rule, App = W K, x = f + Scatter App^-1 W (f - K f)",
+                                          expected=str((exp_app, exp_op))[:400], got=str((got_app, got_op))[:400]),
+                              theorem="C18: cpr_drs realises the dynamic-row-sum weighting and the two-stage formula"))
+    for g, d in grp.items():
+        if "scalar" in d and "block" in d:
+            ctx["stats"]["oracle_checks"] += 1
+            if d["scalar"][:2] != d["block"][:2]:
+                fails.append(dict(kind="counterexample", case=d["block"][2], impl=str(d["block"][:2])[:400], model=str(d["scalar"][:2])[:400], op="cprdrs", size=len(d["block"][2]),
+                                  theorem="C18: cpr_drs on scalar input with block_size b and on b x b block input give the same operator and pressure matrix"))
     return fails
 
 
